@@ -531,7 +531,15 @@ func (f *Frame) typeAssert(bi *BInfo, x *ssa.TypeAssert) {
 	if x.CommaOk {
 		f.tuples[x] = []T{val, boolT(ok)}
 	} else {
-		f.safety("assert", bi, ok, "type assertion "+x.String())
+		kind := "assert"
+		if extResult(x.X) {
+			// the operand is what a library function without contract returned (sync.Pool.Get, a
+			// decoder's interface value): nothing is known about its dynamic type, so the obligation
+			// cannot be discharged whatever the code does; the verdict policy reports it as
+			// undecided, not as a violation (check.go)
+			kind = "assert-ext"
+		}
+		f.safety(kind, bi, ok, "type assertion "+x.String())
 		f.setVal(x, val)
 	}
 }
@@ -681,4 +689,21 @@ func (f *Frame) applyGhostSets(fc *FuncContract, env *SpecEnv, st *State) {
 	for _, u := range ups {
 		g.store(st, u.l, u.v)
 	}
+}
+
+// extResult: v is the result (or one of the results) of a call to a function outside the
+// repository (no body in the program), possibly through an interface method of such a package.
+func extResult(v ssa.Value) bool {
+	if e, ok := v.(*ssa.Extract); ok {
+		v = e.Tuple
+	}
+	c, ok := v.(*ssa.Call)
+	if !ok {
+		return false
+	}
+	callee := c.Call.StaticCallee()
+	if callee == nil {
+		return false
+	}
+	return callee.Blocks == nil
 }
